@@ -128,7 +128,10 @@ def one_sign(draw, tier):
         if c["mode"] == "segwit":
             maxws = 10000 if thorough else 520
             c["ws"] = draw(st.one_of(st.binary(min_size=1, max_size=80),
-                                     st.binary(min_size=1, max_size=maxws)))
+                                     st.binary(min_size=1, max_size=maxws),
+                                     # around the widths of the length prefix
+                                     st.sampled_from([75, 76, 252, 253, 254, 255, 256]).flatmap(
+                                         lambda n: st.binary(min_size=n, max_size=n))))
             c["ov"] = draw(st.one_of(st.sampled_from([1, 2 ** 63, 2 ** 64 - 1]),
                                      st.integers(1, 2 ** 64 - 1)))
         c["receipt"] = draw(rlp_receipt(2000))
